@@ -84,8 +84,9 @@ let site_str (s : Faults.fsite) = match s with
   | Faults.SArg (n, k, _) -> Printf.sprintf "arg:%d:%d" (int_of_n n) (int_of_nat k)
   | Faults.SDrop (n, port, x) -> Printf.sprintf "drop:%d:%s:%d" (int_of_n n) (if port then "port" else "generic") (int_of_n x)
   | Faults.SFlip n -> Printf.sprintf "flip:%d" (int_of_n n)
-  | Faults.SStmt (n, Syntax.SCall (_, Syntax.ANil)) -> Printf.sprintf "stmt:%d:call_without_actuals" (int_of_n n)
-  | Faults.SStmt (n, _) -> Printf.sprintf "stmt:%d:other_callee" (int_of_n n)
+  | Faults.SStmt (n, Syntax.SCall (_, Syntax.ANil), _) -> Printf.sprintf "stmt:%d:call_without_actuals" (int_of_n n)
+  | Faults.SStmt (n, Syntax.SCall (_, _), _) -> Printf.sprintf "stmt:%d:other_callee" (int_of_n n)
+  | Faults.SStmt (n, _, k) -> Printf.sprintf "stmt:%d:case_choice:%d" (int_of_n n) (int_of_n k)
   | Faults.SRootAt (n, _, c) -> Printf.sprintf "aggregate_element:%d:%d" (int_of_n n) (int_of_n (Sem.head_nid c))
 
 let coq_expr (e : Syntax.expr) : string = match e with
@@ -100,7 +101,7 @@ let site_coq (s : Faults.fsite) = match s with
   | Faults.SArg (n, k, e) -> Printf.sprintf "SArg %d %d%%nat %s" (int_of_n n) (int_of_nat k) (coq_expr e)
   | Faults.SDrop (n, port, x) -> Printf.sprintf "SDrop %d %b %d" (int_of_n n) port (int_of_n x)
   | Faults.SFlip n -> Printf.sprintf "SFlip %d" (int_of_n n)
-  | Faults.SStmt (_, _) -> "?"
+  | Faults.SStmt (_, _, _) -> "?"
   | Faults.SRootAt (_, _, _) -> "?"
 
 let rewrite_str (r : Rewrites.rewrite) = match r with
@@ -189,16 +190,44 @@ let fclass_of_name s = Stdlib.List.find_opt (fun f -> fclass_name f = s) Faults.
    walk_program, lit_candidates, obj_candidates) and filtered with the extracted `eligible_at` on the phrase information
    of ONE walk of the program (the specification `eligible` walks the program again for every candidate). *)
 type fctx = { prog : Syntax.program; walk : Walk.pinfo list; roots : Walk.pinfo list; lits : Syntax.expr list; objs : Syntax.expr list;
-              subs : Syntax.expr list; aggs : Walk.pinfo list; m : BinNums.coq_N }
+              subs : Syntax.expr list; aggs : Walk.pinfo list; opaggs : Walk.pinfo list; cases : Walk.pinfo list; m : BinNums.coq_N }
 let make_fctx (p : Syntax.program) : fctx =
   let w = Walk.walk_program p in
   { prog = p; walk = w; subs = Faults.sub_candidates p;
-    aggs = Stdlib.List.filter (fun i -> match Faults.phrase_root i.Walk.pi_ph with Some (Syntax.EAgg (_, _)) -> true | _ -> false) w;
-    roots = Stdlib.List.filter (fun i -> match Faults.phrase_root i.Walk.pi_ph with Some _ -> true | None -> false) w;
+    (* root expressions that contain an aggregate: itself, or as an operand of an operator *)
+    aggs = Stdlib.List.filter (fun i -> match Faults.phrase_root i.Walk.pi_ph with
+        | Some e -> Faults.agg_variants (Syntax.EInt (n_of_int 0, n_of_int 0)) e <> [] | None -> false) w;
+    opaggs = Stdlib.List.filter (fun i -> match Faults.phrase_root i.Walk.pi_ph with
+        | Some (Syntax.EAgg (_, _)) -> false
+        | Some e -> Faults.agg_variants (Syntax.EInt (n_of_int 0, n_of_int 0)) e <> [] | None -> false) w;
+    cases = Stdlib.List.filter (fun i -> match i.Walk.pi_ph with Walk.PStmt (Syntax.SCase (_, _, _, _)) -> true | _ -> false) w;
+    (* value roots: without the conditions of if / while (Faults.value_root_phrases) *)
+    roots = Stdlib.List.filter (fun i -> (match Faults.phrase_root i.Walk.pi_ph with Some _ -> true | None -> false)
+                                         && not (Faults.is_condition i)) w;
     lits = Faults.lit_candidates p; objs = Faults.obj_candidates p; m = Walk.max_nid p }
 let rec args_len = function Syntax.ANil -> 0 | Syntax.ACons (_, _, r) -> 1 + args_len r
 let phrase_candidate (c : fctx) (f : Faults.fclass) : (Faults.fsite * Walk.pinfo) option =
   match f with
+  | Faults.FWrongLiteral when rand 4 = 0 && c.cases <> [] ->
+    (* an enumeration literal (of another type) as a case choice *)
+    (match pick c.cases with
+     | Some i -> (match pick (Faults.choice_candidates (Faults.fresh_nid c.prog) (Faults.lit_ids c.prog) i) with
+         | Some st -> Some (st, i) | None -> None)
+     | None -> None)
+  | Faults.FWrongObject when rand 4 = 0 && c.cases <> [] ->
+    (match pick c.cases with
+     | Some i -> (match pick (Faults.choice_candidates (Faults.fresh_nid c.prog) (Faults.obj_idents c.prog) i) with
+         | Some st -> Some (st, i) | None -> None)
+     | None -> None)
+  | Faults.FWrongLiteral when rand 3 = 0 && c.opaggs <> [] ->
+    (* inside an aggregate that is an operand of an operator *)
+    (match pick c.opaggs with
+     | Some i -> (match pick (Faults.agg_candidates c.lits i) with Some st -> Some (st, i) | None -> None)
+     | None -> None)
+  | Faults.FWrongObject when rand 3 = 0 && c.opaggs <> [] ->
+    (match pick c.opaggs with
+     | Some i -> (match pick (Faults.agg_candidates c.objs i) with Some st -> Some (st, i) | None -> None)
+     | None -> None)
   | Faults.FWrongLiteral when rand 2 = 0 && c.aggs <> [] ->
     (* one element of an aggregate, at any depth *)
     (match pick c.aggs with
